@@ -82,7 +82,7 @@ def run_side(exe, cases, work, tag, shared, extra=(), env=None, shards=16, timeo
             if se.strip(): errs.append(se)
     return out, owns, '\n'.join(errs)
 
-def run_both(cases, work, shared=None, flavor='plain', cxx_extra=(), cxx_env=None, repo=None, shards=16):
+def run_both(cases, work, shared=None, flavor='plain', cxx_extra=(), cxx_env=None, repo=None, shards=16, model_env=None):
     shared = shared or work.sub('shared')
     drv = build.build_driver(flavor, repo=repo)
     mdl = build.build_model()
@@ -93,7 +93,9 @@ def run_both(cases, work, shared=None, flavor='plain', cxx_extra=(), cxx_env=Non
     if cxx_env: env.update(cxx_env)
     with ThreadPoolExecutor(2) as ex:
         fc = ex.submit(run_side, drv, cases, work, 'cxx', shared, cxx_extra, env, shards)
-        fm = ex.submit(run_side, mdl, cases, work, 'mdl', shared, (), None, shards)
+        menv = None
+        if model_env: menv = dict(os.environ); menv.update(model_env)
+        fm = ex.submit(run_side, mdl, cases, work, 'mdl', shared, (), menv, shards)
         c = fc.result(); m = fm.result()
     return c, m
 
